@@ -317,7 +317,8 @@ class ArmSummarizer:
         """like field_reads, for every parameter: 'self.a.b' / 'argN.a'"""
         out = set()
         for i in range(1, fn.argc + 1):
-            nm = 'self' if i == 1 and (fn.lname(1) in (None, 'self')) and fn.impl_self_adt else (fn.lname(i) or 'arg%d' % i)
+            # positional, never the parameter's name: renaming a parameter changes nothing
+            nm = 'self' if i == 1 and (fn.lname(1) in (None, 'self')) and fn.impl_self_adt else 'arg%d' % i
             for r in self.field_reads(fn, blocks, i):
                 out.add('%s.%s' % (nm, r))
         return out
